@@ -5,7 +5,7 @@
 
 use crate::common::*;
 use crate::dirdrv::{rid, Cell, DirCtx, HasRef};
-use crate::hookdb::PID;
+use crate::hookdb::{CTL, PID};
 use akd::verify::history::HistoryParams;
 use akd::{Digest, EpochHash, HistoryVerificationParams};
 use serde_json::{json, Value};
@@ -46,6 +46,7 @@ pub async fn run_conc<TC: HasRef>(b: &Value, tr: &mut Tracer) {
         c.gate_enabled = !mt;
         // "post": the completion of every storage operation is a scheduling point of its own
         c.gate_post = b["post"].as_bool().unwrap_or(false);
+        c.sched_points = b["sched_points"].as_bool().unwrap_or(false);
     }
     let procs = b["procs"].as_array().unwrap().clone();
     let mut handles: HashMap<u32, tokio::task::JoinHandle<Value>> = HashMap::new();
@@ -69,7 +70,11 @@ pub async fn run_conc<TC: HasRef>(b: &Value, tr: &mut Tracer) {
             "lookup" | "history" => (Some(ctx.conc.label(spec["label"].as_str().unwrap())), vec![]),
             _ => (None, vec![]),
         };
+        let start_ctl = ctx.db.ctl.clone();
         let fut = async move {
+            // a task begins only when the controller grants it its first step (so that a request can START
+            // at any point of another call, not only before it)
+            crate::hookdb::gate_wait(&start_ctl, pid, "start", String::new()).await;
             match spec["kind"].as_str().unwrap() {
                 "publish" => match dir.publish(real_batch).await {
                     Ok(EpochHash(ep, d)) => json!({"res": "ok", "epoch": ep, "digest": hex::encode(d)}),
@@ -112,7 +117,7 @@ pub async fn run_conc<TC: HasRef>(b: &Value, tr: &mut Tracer) {
                 other => json!({"res": "err", "what": format!("unknown kind {other}")}),
             }
         };
-        handles.insert(pid, tokio::spawn(PID.scope(pid, fut)));
+        handles.insert(pid, tokio::spawn(CTL.scope(ctx.db.ctl.clone(), PID.scope(pid, fut))));
     }
 
     // controller
@@ -302,6 +307,7 @@ pub fn main_conc(args: &[String]) {
     let out = arg_val(args, "--out").expect("--out");
     let threads: usize = arg_val(args, "--threads").map(|s| s.parse().unwrap()).unwrap_or(8);
     let behaviours = read_ndjson(&input);
+    crate::hookdb::install_sched_hook();
     let (n, total) = crate::dirdrv::run_parallel(behaviours, &out, threads, |b| async move {
         if b["mt"].as_bool().unwrap_or(false) {
             // truly parallel run: own multi-thread runtime, gate open, tasks race freely
